@@ -137,6 +137,7 @@ pub fn run(name: &str, a: &[u64]) -> Vec<u64> {
         "sbd_hist" => crate::codec::sbd_hist(a),
         "intermediate" => crate::codec::intermediate(a),
         "plan_ops" => crate::codec::plan_ops(a),
+        "builder_roundtrip" => crate::codec::builder_roundtrip(a),
         "cm_rows" => crate::codec::cm_rows(a),
         "dec_ops" => crate::codec::dec_ops(a),
         "dense_solve_ops" => std::iter::once(1u64).chain(crate::codec::solve_ops(&[a[0], 1 << 31])).collect(),
